@@ -677,7 +677,35 @@ def try_kind(e):
     return e.value if isinstance(e, ast.Constant) else None
 
 
+def r20_11(chk):
+    chk.rule("R20.11", "the delimited writers of format/table.py write cell text as it is: formatted_array(pad=False) -- the path taken by to_csv / to_tsv / to_string(sep=...) -- returns the cells without any white-space trimming; `strip()` belongs to the padded path only (after the `if not pad: return`), where the text is re-aligned anyway. A trimmed cell ('  indented', a cell holding one blank) does not come back from the delimited round trip")
+    from ..cfg import build
+
+    m = chk.repo.module("format/table.py")
+    fn = m.func("formatted_array")
+    g = build(fn)
+    early = [nd for nd in g.nodes if nd.kind == "return" and any(isinstance(i, ast.If) and "pad" in norm(i.test) and any(r is nd.ast for r in ast.walk(i)) for i in walk_no_nested(fn))] if any(nd.kind == "return" for nd in g.nodes) else []
+    if not early:
+        early = [nd for nd in g.nodes if isinstance(getattr(nd, "ast", None), ast.Return) and any(isinstance(i, ast.If) and "pad" in norm(i.test) and any(r is nd.ast for r in ast.walk(i)) for i in walk_no_nested(fn))]
+    if not early:
+        raise AnalysisError("formatted_array: the `if not pad: return` exit was not found")
+    loops = [lp for lp in walk_no_nested(fn) if isinstance(lp, ast.For) and "series" in norm(lp.iter)]
+    if not loops:
+        raise AnalysisError("formatted_array: the loop over the series was not found")
+    cells = {x.id for x in ast.walk(loops[0].target) if isinstance(x, ast.Name)}
+    trims = g.nodes_containing(lambda x: isinstance(x, ast.Call) and isinstance(x.func, ast.Attribute) and x.func.attr in ("strip", "lstrip", "rstrip") and isinstance(x.func.value, ast.Name) and x.func.value.id in cells)
+    k = key(m, "formatted_array", "unpadded cells are not trimmed")
+    bad = None
+    for t in trims:
+        seen = g.reachable([t], kinds=("n",))
+        if any(id(e) in seen for e in early):
+            bad = t
+    chk.decide(bad is None, "R20.11", k, m.loc(bad.ast if bad else fn), f"{len(trims)} trim(s) of cell text, none on a path to the pad=False return", f"`{norm(bad.ast)[:60] if bad else ''}` trims the cell text before the `if not pad: return`: to_csv()/to_tsv() write '  indented' as 'indented' and a cell holding one blank as empty")
+    chk.floor("R20.11", 1, "formatted_array")
+
+
 def run(chk):
+    r20_11(chk)
     r20_10(chk)
     r20_9(chk)
     r20_7(chk)
